@@ -135,6 +135,9 @@ impl Prop for C07 {
     fn watchdog(&self) -> Option<Duration> {
         Some(Duration::from_secs(30))
     }
+    fn hang_is_violation(&self) -> bool {
+        true
+    }
     fn check(&self, c: &Case, st: &mut Stats) -> Result<(), Failure> {
         check_case(c, st)
     }
